@@ -14,7 +14,7 @@ import (
 func init() {
 	ev.Register(&ev.Spec{
 		ID: "C04", Level: "exploration",
-		Rule: "(a) model-guided bounded-exhaustive: breadth-first over an alphabet of ~75 requests (fids {0,1,2,7}, every T-type incl. Tauth, auth-fid attach, open modes, xattr walk/create/read/write/clunk, remove, rename family), de-duplicating canonical (model state, backend tree) pairs and executing every (state, request) edge on a fresh real server; (b) PRNG sequences of 150-1500 requests over wider alphabets with fid re-use and operations on clunked fids; after every step every small fid is probed (Tgetattr: EBADF iff the model says unbound). Every reply is compared with the session model's verdict (set of acceptable errnos / success type / errno of the failing backend call) and rejected requests must not reach the backend. Non-trivial: the edge passes fid lookup; distinct by (state hash, request).",
+		Rule:    "(a) model-guided bounded-exhaustive: breadth-first over an alphabet of ~75 requests (fids {0,1,2,7}, every T-type incl. Tauth, auth-fid attach, open modes, xattr walk/create/read/write/clunk, remove, rename family), de-duplicating canonical (model state, backend tree) pairs and executing every (state, request) edge on a fresh real server; (b) PRNG sequences of 150-1500 requests over wider alphabets with fid re-use and operations on clunked fids; after every step every small fid is probed (Tgetattr: EBADF iff the model says unbound). Every reply is compared with the session model's verdict (set of acceptable errnos / success type / errno of the failing backend call) and rejected requests must not reach the backend. Non-trivial: the edge passes fid lookup; distinct by (state hash, request).",
 		Assume:  []string{"internal/model encodes the statement's rules and nothing else; outcomes the statement leaves open are don't-care and end the sequence", "memfs (path-bound handles) as backend"},
 		Shards:  shards(8, 16),
 		Timeout: timeout(8*time.Minute, 60*time.Minute),
